@@ -116,5 +116,5 @@ SPEC = dict(
                'operations and the whole-queue swap are exercised), every node and sentinel in its own malloc block under ASan. Histories are unbounded, so '
                'seeded sampling with operand/position class coverage is the reachable level.',
     level_note='trusted: the id-sequence models in harness/h_list.c (semantics read off the headers\' documented diagrams)',
-    technique='seeded operation histories against lock-step sequence models, ring-integrity walker, ASan',
+    technique='seeded operation histories (small, and large to 65537..200000 nodes) against lock-step sequence models, ring-integrity walker, every function and macro form judged, destructor-call accounting, comparator operand monitor, ASan/LeakSanitizer',
 )
